@@ -154,12 +154,16 @@ Definition expected_package_vars : list string := [
    table therefore does not stop the proof; a new pool, cache or shared buffer does. *)
 Definition benign_kind (k : string) : bool :=
   String.eqb k "value" || String.eqb k "map" || String.eqb k "slice" || String.eqb k "func" || String.eqb k "error".
+(* Prometheus collectors, and structs / pointers to structs made only of them: safe for concurrent use by the client
+   library's contract; what they count is commutative (C19_counters).  Not to be reassigned, though. *)
+Definition metric_kind (k : string) : bool := String.eqb k "metric".
 Definition row_mentions (name : string) (w : string * string * string * string) : bool :=
   let '(pkg, v, _, _) := w in String.eqb (String.append pkg (String.append "." v)) name.
 Definition var_ok (e : string * string) : bool :=
   let '(name, kind) := e in
   existsb (String.eqb name) expected_package_vars
-  || (benign_kind kind && negb (existsb (row_mentions name) G.global_writes) && negb (existsb (row_mentions name) G.global_aliases)).
+  || (benign_kind kind && negb (existsb (row_mentions name) G.global_writes) && negb (existsb (row_mentions name) G.global_aliases))
+  || (metric_kind kind && negb (existsb (row_mentions name) G.global_writes)).
 Lemma tie_package_vars : forallb var_ok G.package_var_kinds = true.
 Proof. vm_compute. reflexivity. Qed.
 Lemma tie_footprint : forallb allowed_write G.global_writes = true.
